@@ -13,7 +13,7 @@ LEVEL = 'exploration'
 RULE = ('all connected graphs with <= 6 nodes (NetworkX graph atlas) x every choice of one distinguished edge x order in '
         '{0,2,3,4} (all other edges single) + the all-single assignment + random order assignments, each under random '
         'relabelings (shuffled integer keys / insertion orders, string keys) and random names; plus random connected graphs '
-        'up to 30 (thorough: 60) nodes with orders 0-4 and >= 10 ring closures. Oracle: read_cgsmiles(write_cgsmiles_graph(G)) '
+        'up to 30 (thorough: 60) nodes with orders 0-4 and >= 10 ring closures; 4 % of the round trips follow a writer call that failed half-way. Oracle: read_cgsmiles(write_cgsmiles_graph(G)) '
         'is isomorphic to G on fragname and order; the written string is also parsed by the independent reference reader to '
         'tell a writer fault from a reader fault. distinct = (graph id or size class, distinguished-edge role, order); '
         'non-trivial = at least one non-single bond.')
